@@ -89,6 +89,23 @@ def cases(tier, seed):
     hier = hier.replace('.names s q r\n011 1\n1-0 1\n.names q r\n0 1\n', '.names s q t r\n011 1\n1-0 1\n')
     hier += '.model wrap\n.inputs clk u v\n.outputs w\n.subckt cell clk=clk p=u q=v r=m\n.names m u w\n01 1\n10 1\n.end\n'
     out.append({'k': 'blif', 'text': hier, 'K': 4, 'tag': 'hier'})
+    # port names are local to a model: a data input of one model named like the clock port of another model (instantiated
+    # earlier in the same file, or in an earlier import of the same process)
+    regmaj = ('.model top\n.inputs clk a b sel\n.outputs y\n.subckt dreg d=a c=clk q=ra\n.subckt maj a=ra b=b c=sel y=y\n.end\n'
+              '.model dreg\n.inputs d c\n.outputs q\n.latch d q re c 0\n.end\n'
+              '.model maj\n.inputs a b c\n.outputs y\n.names a b c y\n11- 1\n1-1 1\n-11 1\n.end\n')
+    out.append({'k': 'blif', 'text': regmaj, 'K': 3, 'tag': 'hier:clock-formal-name-reused-as-data'})
+    out.append({'k': 'blif', 'text': regmaj.replace('.subckt dreg d=a c=clk q=ra\n.subckt maj a=ra b=b c=sel y=y\n',
+                                                    '.subckt maj a=ra b=b c=sel y=y\n.subckt dreg d=a c=clk q=ra\n'),
+                'K': 3, 'tag': 'hier:clock-formal-name-reused-as-data:reversed'})
+    shift2 = ('.model shift2\n.inputs clk d[0] d[1]\n.outputs q[0] q[1]\n.subckt ff d=d[0] ck=clk q=q[0]\n.subckt ff d=d[1] ck=clk q=q[1]\n'
+              '.end\n.model ff\n.inputs d ck\n.outputs q\n.latch d q re ck 1\n.end\n')
+    gated = ('.model gated\n.inputs ck d[0] d[1]\n.outputs o[0] o[1]\n.subckt gate ck=ck d=d[0] y=o[0]\n.subckt gate ck=ck d=d[1] y=o[1]\n'
+             '.end\n.model gate\n.inputs ck d\n.outputs y\n.names ck d y\n11 1\n.end\n')
+    for merge in (True, False):
+        out.append({'k': 'blif', 'text': shift2, 'K': 3, 'merge': merge, 'tag': 'hier:shift2'})
+        out.append({'k': 'blif', 'text': gated, 'pre': shift2, 'K': 1, 'merge': merge, 'tag': 'hier:second-import-after-clocked-one'})
+        out.append({'k': 'blif', 'text': shift2, 'pre': gated, 'K': 3, 'merge': merge, 'tag': 'hier:clocked-import-after-gated-one'})
     # several latches fed by the same next-state signal, with different initial values
     for inits in (('0', '1'), ('1', '0'), ('1', '2', '0'), ('', '1'), ('3', '1', '1')):
         qs = ['q%d' % i for i in range(len(inits))]
@@ -175,6 +192,11 @@ def import_block(case, rec):
     ie.Subcircuit.add_reg = add_reg
     try:
         if case['k'] == 'blif':
+            if case.get('pre'):
+                # a history: another netlist was imported earlier in this process
+                pyrtl.input_from_blif(case['pre'], merge_io_vectors=case.get('merge', True))
+                pyrtl.reset_working_block()
+                del rec[:]
             pyrtl.input_from_blif(case['text'], merge_io_vectors=case.get('merge', True))
         else:
             import io
